@@ -372,6 +372,17 @@ def roots(tier, seed):
     asets.append(([["p2", "p4", "p3"], ["p1", "twopk", "p5"], ["p3", "p3", "p4"], ["q3", "p2", "tie"]],
                   [0.0, 44.95, 45.0, 45.05]))
     asets.append(([["p2", "p4", "p3"], ["p1", "twopk", "p5"], ["p3", "p3", "p4"]], [10.0, 10.000001, 10.1]))
+    # the second azimuth has no peak below f[F-2]: a frequency-domain rejection with that upper limit is
+    # legitimately refused half-way through the azimuths (the object stays writable or not - if it is, the file
+    # must describe it)
+    asets.append(([["p2", "p3", "p2"], ["p5", "p5", "p5"]], [0.0, 90.0]))
+    asets.append(([["p2", "p3", "p2"], ["p3", "p2", "p2"], ["p5", "p5", "p5"]], [0.0, 60.0, 120.0]))
+    # azimuth 1: every window peaks inside (f[1], f[F-2]) but their mean curve keeps rising there - the
+    # rejection with that range raises at azimuth 1, after azimuth 0 and before azimuth 2
+    HALFWAY = dict(kind="azi", grid="lin", F=7, depth=1, azimuths=[0.0, 60.0, 120.0],
+                   shapes_by_az=[["p2", "p3"], ["p2", "p3"], ["p3", "p2"]],
+                   rows_by_az=[A.curve_set(["p2", "p3"], 7), [[1, 1, 3, 2, 4, 6, 7], [1, 1, 1.5, 3.6, 2.2, 6, 7]],
+                               A.curve_set(["p3", "p2"], 7)])
     dq = 2
     if tier == "quick":
         out.append(dict(kind="trad", real=True, depth=2))
@@ -380,6 +391,7 @@ def roots(tier, seed):
         out.append(dict(kind="azi", real=True, azimuths=[0.0, 45.0, 90.0], depth=1))
         for sh, az in asets[:3] + asets[4:]:
             out.append(dict(kind="azi", grid="lin", F=7, shapes_by_az=sh, azimuths=az, depth=1))
+        out.append(HALFWAY)
         out.append(dict(kind="diffuse", real=True, depth=2))
         for vals in A.all_curves(5, (1, 2, 3))[::9]:
             out.append(dict(kind="diffuse", grid="lin", values=vals, depth=1))
@@ -392,6 +404,7 @@ def roots(tier, seed):
         out.append(dict(kind="azi", real=True, azimuths=az, depth=2))
     for sh, az in asets:
         out.append(dict(kind="azi", grid="lin", F=7, shapes_by_az=sh, azimuths=az, depth=2))
+    out.append(dict(HALFWAY, depth=2))
     out.append(dict(kind="diffuse", real=True, depth=2))
     for vals in A.all_curves(5, (1, 2, 3)):
         out.append(dict(kind="diffuse", grid="lin", values=vals, depth=2))
